@@ -4,7 +4,7 @@
 # repository's own suite still passes, runs the named checks (quick tier) and
 # restores /repo. Prints one line per check: DETECTED / MISSED.
 set -u
-patch="$1"; shift
+patch="$(readlink -f "$1")"; shift
 cd /repo || exit 2
 if [ -n "$(git status --porcelain)" ]; then echo "try_mutant: /repo is not clean" >&2; exit 2; fi
 if ! git apply "$patch"; then echo "try_mutant: patch does not apply" >&2; exit 2; fi
